@@ -176,9 +176,10 @@ impl Property for C09 {
                 });
             }
             // later tests on the same entry meet ENOENT / ENOTDIR
+            // (no time tests here: they would read the real clock's ticks)
             match rng.below(5) {
                 0 => after.extend(["-size".to_string(), "+0".to_string()]),
-                1 => after.extend(["-newer".to_string(), "t".to_string()]),
+                1 => after.extend(["-type".to_string(), "f".to_string()]),
                 2 => after.push("-empty".to_string()),
                 3 => after.extend(["-lname".to_string(), "*".to_string()]),
                 _ => {}
